@@ -152,15 +152,7 @@ def _ours_loop_form(ctx, facts, body, it, r, sub, name, props):
         pre = []
 
         def atom(t):
-            if is_call(t, ('contains_key', 'contains')) and len(t[2]) == 2:
-                pp = param_path(t[2][0])
-                if pp and pp[0] == 2 and pp[1] == (r['entries'],):
-                    return 'theirs_has'
-            if t[0] == 'discr' and is_call(t[1], ('get', 'get_mut')) and len(t[1][2]) == 2:
-                pp = param_path(t[1][2][0])
-                if pp and pp[0] == 2 and pp[1] == (r['entries'],):
-                    return ('map', 'theirs_has', {True: 1, False: 0})
-            return None
+            return presence_atom(t, 2, r['entries'], 'theirs_has')
 
         def classify(a, b, t):
             for x, y, orient in ((a, b, 'fwd'), (b, a, 'rev')):
@@ -256,17 +248,8 @@ def merge_drop(ctx):
             def S(t, mapping=mapping):
                 return subst(t, mapping)
 
-            def atom(t):
-                ts = S(t)
-                if is_call(ts, ('contains_key', 'contains')) and len(ts[2]) == 2:
-                    pp = param_path(ts[2][0])
-                    if pp and pp[0] == 2 and pp[1] == (r['entries'],):
-                        return 'theirs_has'
-                if ts[0] == 'discr' and is_call(ts[1], ('get', 'get_mut')) and len(ts[1][2]) == 2:
-                    pp = param_path(ts[1][2][0])
-                    if pp and pp[0] == 2 and pp[1] == (r['entries'],):
-                        return ('map', 'theirs_has', {True: 1, False: 0})
-                return None
+            def atom(t, mapping=mapping):
+                return presence_atom(t, 2, r['entries'], 'theirs_has', mapping)
             pre = []
 
             def classify(a, b, t):
@@ -374,15 +357,7 @@ def merge_drop(ctx):
         pre = []
 
         def atom2(t):
-            if t[0] == 'discr' and is_call(t[1], ('get', 'get_mut')) and len(t[1][2]) == 2:
-                pp = param_path(t[1][2][0])
-                if pp and pp[0] == 1 and pp[1] == (r['entries'],):
-                    return ('map', 'ours_has', {True: 1, False: 0})
-            if is_call(t, ('contains_key', 'contains')) and len(t[2]) == 2:
-                pp = param_path(t[2][0])
-                if pp and pp[0] == 1 and pp[1] == (r['entries'],):
-                    return 'ours_has'
-            return None
+            return presence_atom(t, 1, r['entries'], 'ours_has')
 
         def classify2(a, b, t):
             for x, y, orient in ((a, b, 'fwd'), (b, a, 'rev')):
@@ -544,11 +519,7 @@ def merge_common(ctx):
             lctx = [l for l in _loops_of(it) if l.head == lp0[0]]
 
             def has_atom(t):
-                if t[0] == 'discr' and is_call(t[1], ('get', 'get_mut')) and len(t[1][2]) == 2 and param_path(versionless(t[1][2][0])) == (1, (r['entries'],)):
-                    return ('map', 'ours_has', {True: 1, False: 0})
-                if is_call(t, ('contains_key', 'contains')) and len(t[2]) == 2 and param_path(versionless(t[2][0])) == (1, (r['entries'],)):
-                    return 'ours_has'
-                return None
+                return presence_atom(t, 1, r['entries'], 'ours_has')
             if lctx:
                 rch = Reach(facts, body, Evaluator(facts, bool_atom=has_atom, assumption={'ours_has': True}))
                 byp = not lctx[0].must(rch, [bb])
